@@ -1,5 +1,8 @@
 import RallyModel.Race
 import RallyProofs.Race
+import RallyProofs.RaceCompletion
+import RallyProofs.RaceProgress
+import RallyProofs.RaceDeadlock
 /-!
 # C01 — the schedule runs step by step on all clients under any message timing
 
@@ -148,6 +151,113 @@ theorem barrier_bookkeeping (cfg : Cfg) (hwf : cfg.WF) (s : State) (hr : Reach c
     rcases hwi.2.2.2 with h1 | h1
     · rw [h1.1]
     · exact absurd hmem h1.2.2.1
+
+/-- **completed_by_effective** (no lost completion) — once the driver has broadcast CompleteCurrentTask for the
+    current step, every worker that has not yet reached the closing join point either has its completion flag set
+    or has a CompleteCurrentTask in its inbox that WILL be honoured when the inbox is processed in FIFO order
+    (`willComplete`: it comes after the `Drive`, or the worker is already inside the element / armed).  This is the
+    conjunct that needs the repaired `receiveMsg_CompleteCurrentTask` (honour it while `start_driving`). -/
+theorem completed_by_effective (cfg : Cfg) (hwf : cfg.WF) (s : State) (hr : Reach cfg s)
+    (hsent : s.d.cctSent = true) (w : Nat) (hw : w < cfg.W) (hin : inStep s w) :
+    (s.ws w).complete = true ∨ willComplete (s.d2w w) (honours (s.ws w)) = true :=
+  reach_cinv hwf hr hsent w hw hin
+
+/-- what `willComplete` promises: handling the inbox front to back with the worker's own handlers sets the flag -/
+theorem willComplete_meaning (l : List MsgDW) (h : Bool) :
+    willComplete l h = true ↔
+      ∃ pre post, l = pre ++ MsgDW.cct :: post ∧ (h = true ∨ MsgDW.drive ∈ pre) := by
+  induction l generalizing h with
+  | nil => simp [willComplete]
+  | cons m ms ih =>
+    cases m with
+    | drive =>
+      simp only [willComplete]
+      rw [ih true]
+      constructor
+      · rintro ⟨pre, post, rfl, _⟩
+        exact ⟨MsgDW.drive :: pre, post, rfl, Or.inr List.mem_cons_self⟩
+      · rintro ⟨pre, post, heq, _⟩
+        cases pre with
+        | nil => simp at heq
+        | cons x xs =>
+          simp only [List.cons_append, List.cons.injEq] at heq
+          exact ⟨xs, post, heq.2, Or.inl rfl⟩
+    | cct =>
+      simp only [willComplete, Bool.or_eq_true]
+      rw [ih h]
+      constructor
+      · rintro (hh | ⟨pre, post, rfl, hc⟩)
+        · exact ⟨[], ms, rfl, Or.inl hh⟩
+        · refine ⟨MsgDW.cct :: pre, post, rfl, ?_⟩
+          rcases hc with hc | hc
+          · exact Or.inl hc
+          · exact Or.inr (List.mem_cons_of_mem _ hc)
+      · rintro ⟨pre, post, heq, hc⟩
+        cases pre with
+        | nil =>
+          rcases hc with hc | hc
+          · exact Or.inl hc
+          · simp at hc
+        | cons x xs =>
+          simp only [List.cons_append, List.cons.injEq] at heq
+          right
+          refine ⟨xs, post, heq.2, ?_⟩
+          rcases hc with hc | hc
+          · exact Or.inl hc
+          · rcases List.mem_cons.mp hc with hx | hx
+            · rw [← heq.1] at hx; cases hx
+            · exact Or.inr hx
+    | startWorker =>
+      simp only [willComplete]
+      rw [ih h]
+      constructor
+      · rintro ⟨pre, post, rfl, hc⟩
+        refine ⟨MsgDW.startWorker :: pre, post, rfl, ?_⟩
+        rcases hc with hc | hc
+        · exact Or.inl hc
+        · exact Or.inr (List.mem_cons_of_mem _ hc)
+      · rintro ⟨pre, post, heq, hc⟩
+        cases pre with
+        | nil => simp at heq
+        | cons x xs =>
+          simp only [List.cons_append, List.cons.injEq] at heq
+          refine ⟨xs, post, heq.2, ?_⟩
+          rcases hc with hc | hc
+          · exact Or.inl hc
+          · rcases List.mem_cons.mp hc with hx | hx
+            · rw [← heq.1] at hx; cases hx
+            · exact Or.inr hx
+
+/-- **starts_at_most_once** — every column of a worker's allocation (one AsyncIoAdapter run for the task allocations
+    of its clients at one index) is entered at most once, and only at or before the worker's current position:
+    no task allocation is ever started twice. -/
+theorem starts_at_most_once (cfg : Cfg) (hwf : cfg.WF) (s : State) (hr : Reach cfg s) :
+    s.entered.Nodup ∧ ∀ w e c, (w, e, c) ∈ s.entered → notAfter e c (s.ws w).pos :=
+  reach_einv hwf hr
+
+/-- an idle poll (wake-up while the executor is still running) leaves the worker exactly as it was -/
+theorem idle_poll_is_stutter (cfg : Cfg) (s : State) (w : Nat) (ts : List (TaskA × Bool))
+    (hwk : (s.ws w).wake ≠ 0) (hsd : (s.ws w).startDriving = false) (hex : (s.ws w).exec = .running ts) :
+    ∃ s', step cfg s (.wakeW w) = some s' ∧ s'.ws w = s.ws w ∧ s'.d = s.d ∧ s'.d2w = s.d2w ∧ s'.w2d = s.w2d := by
+  have hnsd : ¬ (s.ws w).startDriving = true := by simp [hsd]
+  refine ⟨{ s with ws := upd s.ws w { (s.ws w) with wake := (s.ws w).wake - 1 + 1 } }, ?_, ?_, rfl, rfl, rfl⟩
+  · simp only [step, if_neg hwk, if_neg hnsd, hex]
+  · simp only [upd_same]
+    have : (s.ws w).wake - 1 + 1 = (s.ws w).wake := by omega
+    rw [this]
+
+/-- the full liveness statement: every unfinished reachable state of a race in which every element CAN end has an
+    enabled event that changes the state.  Proved below for configurations whose tasks all end by themselves
+    (`progress_finite_partial`); for elements that end only through completed-by the ingredients are proved
+    (`completed_by_effective`, `wakeup_chain`) and the simulator's hang detector searches for counterexamples. -/
+def ProgressFull (cfg : Cfg) (canEnd : Prop) : Prop :=
+  canEnd → ∀ s, Reach cfg s → s.d.stepP1 ≤ cfg.S → ∃ e s', step cfg s e = some s' ∧ Changed s s'
+
+/-- **progress (partial: all tasks finite)** — no deadlock: while the race is not over some event other than an idle
+    poll is enabled, for every number of workers, every schedule shape and every reachable state. -/
+theorem progress_finite_partial (cfg : Cfg) (hwf : cfg.WF) : ProgressFull cfg cfg.AllFinite := by
+  intro haf s hr hunf
+  exact no_deadlock hwf haf hr hunf
 
 /-! ### non-vacuity: a concrete 2-worker, 1-element configuration with a completed-by task (tests, labelled as tests) -/
 
